@@ -72,6 +72,12 @@ def check(tier):
     _fold(rep, rep2, "shapes")
     from .. import corpus
 
+    from .. import deviate
+    from .c03 import deviation_bases
+
+    dsyms = alphabet("NONE STR MARK TUPLE ETUP EDICT REDUCE OBJ NEWOBJ BUILD SETITEM APPEND POP DUP MEMOIZE BINGET0 PROTO2".split(),
+                     [G("m", "eval"), G("operator", "getitem"), INST("os", "open")])
+    deviate.run(PROP, deviation_bases(tier), dsyms, [(oracles, "c19_total")], rep)
     items = list(programs())
     for i, v in enumerate(corpus.object_values()[:-1] + corpus.plain_values("quick")[::5]):
         for tag, b in corpus.pickles_of(v, unframed=False):
